@@ -28,11 +28,10 @@ Fixpoint codes_eqb (a b : list text) : bool :=
   | _, _ => false
   end.
 
-(* the session is ended by the server only after QUIT (221) or EPSV <arg> (522) *)
+(* the session is ended by the server only after QUIT (221) *)
 Definition ends_ok (h : string) (arg : text) (o : out) (keep : bool) : bool :=
   keep
-  || (String.eqb h "quit" && codes_eqb (o_codes o) [t_of "221"])
-  || (String.eqb h "epsv" && codes_eqb (o_codes o) [t_of "522"] && negb (text_eqb arg [])).
+  || (String.eqb h "quit" && codes_eqb (o_codes o) [t_of "221"]).
 
 Lemma codes_eqb_single l c : codes_eqb l [c] = true -> l = [c].
 Proof.
@@ -44,8 +43,46 @@ Qed.
 Definition good (h : string) (arg : text) (r : result) : Prop :=
   let '(_, o, keep) := r in shape_ok o = true /\ ends_ok h arg o keep = true.
 
-(* REST with a str.isdigit() argument that int() rejects: the handler raises (finding F09) *)
-Definition rest_crash (arg : text) : Prop := str_isdigit arg = true /\ int_of_digits arg = None.
+(* REST whose argument passes the handler's guard (isascii() and isdigit()) but makes int() raise: impossible.
+   (Before the repair of F09 the guard was isdigit() alone, which superscript digits pass and int() rejects.) *)
+Definition rest_crash (arg : text) : Prop :=
+  str_isascii arg && str_isdigit arg = true /\ int_of_digits arg = None.
+
+Definition ascii_digits_have_values : bool :=
+  forallb (fun c => implb (is_digit_char c) (match decimal_val c with Some _ => true | None => false end))
+          (map Z.of_nat (seq 0 128)).
+
+Lemma ascii_digits_have_values_ok : ascii_digits_have_values = true.
+Proof. vm_compute. reflexivity. Qed.
+
+Lemma ascii_digit_value c : (0 <=? c) && (c <? 128) = true -> is_digit_char c = true -> decimal_val c <> None.
+Proof.
+  intros R D. pose proof ascii_digits_have_values_ok as H. unfold ascii_digits_have_values in H.
+  rewrite forallb_forall in H. specialize (H c).
+  assert (I : In c (map Z.of_nat (seq 0 128))).
+  { apply andb_true_iff in R as [R1 R2]. apply Z.leb_le in R1. apply Z.ltb_lt in R2.
+    replace c with (Z.of_nat (Z.to_nat c)) by lia. apply in_map. apply in_seq. lia. }
+  specialize (H I). rewrite D in H. cbn [implb] in H. destruct (decimal_val c); [discriminate|discriminate].
+Qed.
+
+Lemma int_of_digits_some s : forall a,
+  forallb (fun c => (0 <=? c) && (c <? 128)) s = true -> forallb is_digit_char s = true ->
+  fold_left (fun acc c => match acc, decimal_val c with
+                          | Some a, Some d => Some (a * 10 + d)
+                          | _, _ => None end) s (Some a) <> None.
+Proof.
+  induction s as [|c s IH]; intros a A D; cbn [fold_left]; [discriminate|].
+  cbn [forallb] in A, D. apply andb_true_iff in A as [Ac As]. apply andb_true_iff in D as [Dc Ds].
+  destruct (decimal_val c) as [v|] eqn:V; [apply IH; assumption|].
+  exfalso. exact (ascii_digit_value c Ac Dc V).
+Qed.
+
+Theorem rest_never_crashes arg : ~ rest_crash arg.
+Proof.
+  intros [G N]. apply andb_true_iff in G as [A D]. unfold str_isascii in A. unfold str_isdigit in D.
+  destruct arg as [|c r]; [discriminate|]. unfold int_of_digits in N.
+  exact (int_of_digits_some (c :: r) 0 A D N).
+Qed.
 
 (* login state is well formed: a user index is valid, and logged in implies a user *)
 Definition wf_sess (users : list user) (s : sess) : Prop :=
@@ -217,12 +254,10 @@ Section Bodies.
     destruct (String.eqb h "prot") eqn:?; [unfold reply; brk2; split; reflexivity|].
     destruct (String.eqb h "pasv") eqn:?; [split; reflexivity|].
     destruct (String.eqb h "epsv") eqn:E4.
-    { destruct arg as [|a0 ar]; [split; reflexivity|].
-      split; [reflexivity|]. unfold ends_ok. rewrite E4.
-      destruct (String.eqb h "quit") eqn:?; reflexivity. }
+    { destruct arg as [|a0 ar]; split; reflexivity. }
     destruct (String.eqb h "abor") eqn:?; [split; reflexivity|].
     destruct (String.eqb h "rest") eqn:E5.
-    { destruct (str_isdigit arg) eqn:D.
+    { destruct (str_isascii arg && str_isdigit arg) eqn:D.
       - destruct (int_of_digits arg) eqn:I; [split; reflexivity|].
         exfalso. apply (NC eq_refl). split; assumption.
       - split; reflexivity. }
@@ -386,37 +421,29 @@ Section Steps.
   Theorem step_reply_shape w e :
     wf_sess users (w_s w) -> s_ended (w_s w) = false ->
     text_eqb (e_verb e) V_DATACONN = false ->
-    (verb_handler t (e_verb e) = Some "rest"%string -> ~ rest_crash (e_arg e)) ->
     shape_ok (snd (step users t w e)) = true /\
     (s_ended (w_s (fst (step users t w e))) = true ->
-       (verb_handler t (e_verb e) = Some "quit"%string /\ o_codes (snd (step users t w e)) = [t_of "221"])
-       \/ (verb_handler t (e_verb e) = Some "epsv"%string /\ e_arg e <> [] /\
-           o_codes (snd (step users t w e)) = [t_of "522"])).
+       verb_handler t (e_verb e) = Some "quit"%string /\ o_codes (snd (step users t w e)) = [t_of "221"]).
   Proof.
-    intros WS NE ND NC. unfold step. rewrite NE, ND.
+    intros WS NE ND. unfold step. rewrite NE, ND.
     destruct (verb_handler t (e_verb e)) as [h|] eqn:V.
     2:{ cbn. split; [reflexivity|]. rewrite NE. discriminate. }
     set (w0 := if is_transfer (e_verb e) then w else set_sess w (set_rest (w_s w) 0)).
     assert (WS0 : wf_sess users (w_s w0)) by (unfold w0; destruct (is_transfer (e_verb e)); exact WS).
     assert (NE0 : s_ended (w_s w0) = false) by (unfold w0; destruct (is_transfer (e_verb e)); exact NE).
-    assert (NC' : String.eqb h "rest" = true -> ~ rest_crash (e_arg e)).
-    { intro E. apply String.eqb_eq in E. subst h. apply NC. reflexivity. }
+    assert (NC' : String.eqb h "rest" = true -> ~ rest_crash (e_arg e)) by (intros _; apply rest_never_crashes).
     pose proof (handler_good 1 h (e_arg e) (e_data e) false w0 (verb_handler_of _ _ V) WS0 NC') as G.
     destruct (handler users t 3 h (e_arg e) (e_data e) false w0) as [[w1 o] keep] eqn:R.
-    destruct G as [A B]. cbn [fst snd]. split; [exact A|].
+    destruct G as [A B]. cbv zeta. cbn [fst snd]. split; [exact A|].
     destruct keep.
-    - (* the handler kept the session: ended flag unchanged by bodies? it is only set by end_sess *)
+    - (* the handler kept the session: the ended flag is only set by end_sess *)
       intro En. exfalso.
       pose proof (handler_same_ended users t 3 h (e_arg e) (e_data e) false w0) as SE.
-      rewrite R in SE. unfold same_ended, res_world in SE. cbn [fst] in SE. congruence.
+      rewrite R in SE. unfold same_ended, res_world in SE. cbn [fst] in SE.
+      destruct (is_transfer (e_verb e)); cbn in En; congruence.
     - intros _. unfold ends_ok in B. cbn [orb] in B.
-      apply orb_true_iff in B as [B|B].
-      + apply andb_true_iff in B as [Hq Hc]. apply String.eqb_eq in Hq. subst h. left. split; [reflexivity|].
-        apply codes_eqb_single. exact Hc.
-      + apply andb_true_iff in B as [B Ha]. apply andb_true_iff in B as [Hq Hc].
-        apply String.eqb_eq in Hq. subst h. right. split; [reflexivity|]. split.
-        * intro E0. rewrite E0 in Ha. discriminate.
-        * apply codes_eqb_single. exact Hc.
+      apply andb_true_iff in B as [Hq Hc]. apply String.eqb_eq in Hq. subst h. split; [reflexivity|].
+      apply codes_eqb_single. exact Hc.
   Qed.
 End Steps.
 
@@ -501,30 +528,31 @@ Section RestFrame.
     intros a' d' ap' w'. split; apply IH; reflexivity.
   Qed.
 
-  (* REST is cleared by every supported command other than REST itself and the three transfer verbs;
-     it survives RETR/STOR/APPE (so that the transfer can use it) and unknown verbs *)
-  Theorem rest_cleared_by_non_transfer w e h :
+  (* the restart offset applies to the immediately following command only: it is cleared by EVERY supported
+     command other than REST itself -- the three transfer verbs included, which see it (the dispatcher hands it
+     over) and leave it cleared; unknown verbs (502) do not touch it *)
+  Theorem rest_cleared_by_every_command w e h :
     s_ended (w_s w) = false -> text_eqb (e_verb e) V_DATACONN = false ->
     verb_handler t (e_verb e) = Some h -> String.eqb h "rest" = false ->
-    is_transfer (e_verb e) = false ->
     s_rest (w_s (fst (step users t w e))) = 0.
   Proof.
-    intros NE ND V NR NT. unfold step. rewrite NE, ND, V, NT.
-    pose proof (handler_same_rest 3 h (e_arg e) (e_data e) false (set_sess w (set_rest (w_s w) 0)) NR) as SR.
-    destruct (handler users t 3 h (e_arg e) (e_data e) false (set_sess w (set_rest (w_s w) 0))) as [[w1 o] keep].
-    unfold same_rest, res_world in SR. cbn [fst] in SR |- *. destruct keep; cbn; exact SR.
+    intros NE ND V NR. unfold step. rewrite NE, ND, V.
+    destruct (is_transfer (e_verb e)) eqn:NT.
+    - destruct (handler users t 3 h (e_arg e) (e_data e) false w) as [[w1 o] keep].
+      cbv zeta. cbn [fst]. destruct keep; reflexivity.
+    - pose proof (handler_same_rest 3 h (e_arg e) (e_data e) false (set_sess w (set_rest (w_s w) 0)) NR) as SR.
+      destruct (handler users t 3 h (e_arg e) (e_data e) false (set_sess w (set_rest (w_s w) 0))) as [[w1 o] keep].
+      unfold same_rest, res_world in SR. cbv zeta. cbn [fst] in SR |- *. destruct keep; cbn; exact SR.
   Qed.
 
-  Theorem rest_survives_transfer_verbs w e h :
+  (* a transfer verb's handler runs on the world it found: it sees the pending offset *)
+  Theorem transfer_sees_offset w e h :
     s_ended (w_s w) = false -> text_eqb (e_verb e) V_DATACONN = false ->
-    verb_handler t (e_verb e) = Some h -> String.eqb h "rest" = false ->
-    is_transfer (e_verb e) = true ->
-    s_rest (w_s (fst (step users t w e))) = s_rest (w_s w).
+    verb_handler t (e_verb e) = Some h -> is_transfer (e_verb e) = true ->
+    snd (step users t w e) = snd (fst (handler users t 3 h (e_arg e) (e_data e) false w)).
   Proof.
-    intros NE ND V NR NT. unfold step. rewrite NE, ND, V, NT.
-    pose proof (handler_same_rest 3 h (e_arg e) (e_data e) false w NR) as SR.
-    destruct (handler users t 3 h (e_arg e) (e_data e) false w) as [[w1 o] keep].
-    unfold same_rest, res_world in SR. cbn [fst] in SR |- *. destruct keep; cbn; exact SR.
+    intros NE ND V NT. unfold step. rewrite NE, ND, V, NT.
+    destruct (handler users t 3 h (e_arg e) (e_data e) false w) as [[w1 o] keep]. reflexivity.
   Qed.
 End RestFrame.
 
@@ -540,22 +568,24 @@ Section Generic.
     step users t w e = (w, mk_out [t_of "502"]).
   Proof. intros NE ND V. unfold step. rewrite NE, ND, V. reflexivity. Qed.
 
-  (* an out-of-sequence command: the first decorator is a connection guard with a missing field *)
+  (* an out-of-sequence command: the first decorator is a connection guard with a missing field; nothing
+     changes except that the pending restart offset is dropped *)
   Theorem out_of_sequence w e h fields fc ds dl f :
     s_ended (w_s w) = false -> text_eqb (e_verb e) V_DATACONN = false ->
     verb_handler t (e_verb e) = Some h ->
     handler_of t h = Some (DConn fields false fc :: ds, dl) ->
     In f fields -> has_field (w_s w) f = false ->
-    let w0 := if is_transfer (e_verb e) then w else set_sess w (set_rest (w_s w) 0) in
-    step users t w e = (w0, mk_out [t_of fc]).
+    step users t w e = (set_sess w (set_rest (w_s w) 0), mk_out [t_of fc]).
   Proof.
-    intros NE ND V Hh Hin Hf w0. unfold step. rewrite NE, ND, V. fold w0.
+    intros NE ND V Hh Hin Hf. unfold step. rewrite NE, ND, V.
+    set (w0 := if is_transfer (e_verb e) then w else set_sess w (set_rest (w_s w) 0)).
     rewrite (handler_unfold users t 2 h), Hh. cbn [run_decos].
     assert (Hf0 : has_field (w_s w0) f = false).
     { unfold w0. destruct (is_transfer (e_verb e)); [exact Hf|].
       unfold has_field in *. cbn [w_s set_sess set_rest s_logged s_user s_passive s_data s_rnfr]. exact Hf. }
-    destruct (find (fun f0 => negb (has_field (w_s w0) f0)) fields) eqn:F; [reflexivity|].
-    exfalso. pose proof (find_none _ _ F _ Hin) as N. cbn in N. rewrite Hf0 in N. discriminate.
+    destruct (find (fun f0 => negb (has_field (w_s w0) f0)) fields) eqn:F.
+    - cbv zeta. unfold w0. destruct (is_transfer (e_verb e)); reflexivity.
+    - exfalso. pose proof (find_none _ _ F _ Hin) as N. cbn in N. rewrite Hf0 in N. discriminate.
   Qed.
 
   (* RNTO consumes the pending rename whenever its body runs *)
